@@ -1299,11 +1299,18 @@ def mutate_case(rng, case):
         case['mutation'] = m
         return case
     if m == 'axis-size':
-      cs = [o for o in case['outer'] if roles[o[0]][0] == 'axis' and o[1]]
+      in_fs_now = ([cfg['bcast'], cfg['carry']] if kind != 'vmap' else []) + [a[0] for a in cfg['axes'] if a[2] != 'out']
+      off_now = 2 if kind != 'vmap' else 0
+      in_ax_now = [a for a in cfg['axes'] if a[2] != 'out']
+
+      def axis_of(col):
+        g_ = first_role(in_fs_now, col)
+        return None if g_ is None or g_ < off_now else in_ax_now[g_ - off_now][1]
+
+      cs = [o for o in case['outer'] if o[1] and axis_of(o[0]) is not None]
       if cs:
         o = rng.choice(cs)
-        g = first_role(([cfg['bcast'], cfg['carry']] if kind != 'vmap' else []) + [a[0] for a in cfg['axes'] if a[2] != 'out'], o[0])
-        ax = [a for a in cfg['axes'] if a[2] != 'out'][g - (2 if kind != 'vmap' else 0)][1]
+        ax = axis_of(o[0])
         nm, a = o[1][0]
         k = norm_ax(ax, len(a['s']))
         sh = list(a['s'])
@@ -1326,10 +1333,12 @@ def mutate_case(rng, case):
         return case
     if m == 'unlifted' and cfg['axes']:
       i = rng.randrange(len(cfg['axes']))
+      saved = cfg['axes'][i][0]
       cfg['axes'][i][0] = rng.choice([False, []])
       if len({json.dumps(a[0]) for a in cfg['axes']}) == len(cfg['axes']):
         case['mutation'] = m
         return case
+      cfg['axes'][i][0] = saved  # would clash with another dict key: undo, so that later candidates see the base case
     if m == 'rng-unlifted' and cfg['split'] and any(st[0] == 'rng' for st in prog['stmts']):
       cfg['split'].pop(rng.randrange(len(cfg['split'])))
       case['mutation'] = m
@@ -1989,7 +1998,12 @@ def run(ctx):
     cases.append((gen_remat_case(rng), 'valid'))
   for _ in range(n_wild):
     base = gen_scan_case(rng, 'valid', kind=rng.choice(['scan', 'scan', 'vmap']))
-    cases.append((mutate_case(rng, base), 'wild'))
+    try:
+      mutated = mutate_case(rng, base)
+    except Exception as e:  # a generator slip must not abort the run: keep the base case, and make it visible
+      ctx.count('mutation_generator_fallback', type(e).__name__)
+      mutated = dict(copy.deepcopy(base), mutation='none')
+    cases.append((mutated, 'wild'))
   for i in range(0, len(cases), 200):
     run_cases(ctx, drv, cases[i : i + 200])
   for c, s in cases[:3] + cases[n_scan : n_scan + 1] + cases[n_scan + n_vmap : n_scan + n_vmap + 1]:
